@@ -878,7 +878,13 @@ pub fn run_c06(sim: &Sim, prop: &str, tier: Tier) -> Outcome {
     //  * two phases: the prefix is supplied and drained to quiescence, then the probes are
     //    supplied - every result of the second phase belongs to the probes (purely API-level).
     let read_ahead = reads_ahead(kind);
-    let two_phase = read_ahead || sim.chance(25);
+    // the receiver is a full link endpoint: in some runs the application also sends through
+    // it between polls, against a transmitter that is busy now and then (delays only). A send
+    // path may take input from the device (e.g. park received bytes while the transmitter is
+    // busy): such runs are two-phase (results are attributed at the API level) and without
+    // receiver restarts (a restart would lose what the old object had parked, mid-frame).
+    let send_pct = sim.pick(&[0u32, 0, 0, 0, 10, 40]);
+    let two_phase = read_ahead || send_pct > 0 || sim.chance(25);
     let n_prefix_items = items.iter().take_while(|i| i.tag == Tag::Prefix).count();
     let mut frame_tags: Vec<Tag> = Vec::new();
     let phases: Vec<&[Item]> = if two_phase {
@@ -902,7 +908,7 @@ pub fn run_c06(sim: &Sim, prop: &str, tier: Tier) -> Outcome {
             show_packet(&p2)
         )
     });
-    let restart_pct = sim.pick(&[0u32, 0, 10, 40]);
+    let restart_pct = if send_pct > 0 { 0 } else { sim.pick(&[0u32, 0, 10, 40]) };
     // rarely: one very long "no data yet" burst at one unit position near or inside the probes
     // (inside a USART frame a wait the receiver must sit out; between frames a long pause)
     let long_burst = if sim.chance(1) { sim.pick(&[12_000u32, 70_000, 150_000]) } else { 0 };
@@ -910,9 +916,6 @@ pub fn run_c06(sim: &Sim, prop: &str, tier: Tier) -> Outcome {
 
     let mut rx = new_receiver(sim, kind, &wire, &back);
     let sig = |what: &str| format!("{}:{}", kind.name(), what);
-    // the receiver is a full link endpoint: in some runs the application also sends through
-    // it between polls, against a transmitter that is busy now and then (delays only)
-    let send_pct = sim.pick(&[0u32, 0, 0, 0, 10, 40]);
     if send_pct > 0 {
         let mut t = crate::dev::TxPolicy::benign();
         match kind {
@@ -1153,6 +1156,11 @@ pub fn panic_site(msg: &str) -> String {
 /// the like. Anything that grows with the history exceeds any constant soon.
 const BETWEEN_CONST: isize = 1024;
 
+/// Floor of C19.frame: single allocations up to this size are never questioned (a bounded
+/// backlog or read-ahead buffer of a kilobyte or two is not a raw link frame buffer; a buffer
+/// that swallows the stream passes any floor soon).
+const FRAME_ALLOC_FLOOR: isize = 4096;
+
 /// Long traffic histories, heap measured after every poll.
 pub fn run_c19(sim: &Sim, prop: &str, tier: Tier) -> Outcome {
     use crate::alloc;
@@ -1277,7 +1285,7 @@ pub fn run_c19(sim: &Sim, prop: &str, tier: Tier) -> Outcome {
         let (class, payload_len, shown) = match &out.res {
             Err(c) => {
                 // the frame-buffer clause is judged even for a call that never returned
-                let allowed_single = 1024isize.max(96 * announced as isize);
+                let allowed_single = FRAME_ALLOC_FLOOR.max(96 * announced as isize);
                 if out.max_single > allowed_single {
                     return fail(
                         prop,
@@ -1319,7 +1327,7 @@ pub fn run_c19(sim: &Sim, prop: &str, tier: Tier) -> Outcome {
 
         // C19.frame: no single allocation beyond what a one-byte length can announce,
         // unless explained by the packet in flight or the payload handed out
-        let allowed_single = 1024isize.max(96 * announced as isize).max(4 * payload_len as isize);
+        let allowed_single = FRAME_ALLOC_FLOOR.max(96 * announced as isize).max(4 * payload_len as isize);
         if max_single > allowed_single {
             return fail(
                 prop,
